@@ -98,7 +98,8 @@ def _child(spec, script, args, cwd, stdin_fd, out_fd, err_fd, trace_fd, plan, en
         vols = ["/"] + list(spec.get("vols", []))
         vnow = parse_now(spec.get("now", "2020-02-02T02:02:02"))
         _e, off = shim.set_epoch(vnow)
-        shim.set_world(spec.get("partitions", vols), uid, vnow, int(off), spec.get("fstype"))
+        shim.set_world(spec.get("partitions", vols), uid, vnow, int(off), spec.get("fstype"),
+                       (plan or {}).get("clock_step", 0))
         if plan and plan.get("nofile"):
             # a small descriptor table: leaked descriptors become EMFILE
             resource.setrlimit(resource.RLIMIT_NOFILE,
